@@ -283,11 +283,11 @@ func TestC12Race_SharedConfig(t *testing.T) {
 // ---- C06 race clause: concurrent Match*, Skip* and one shared Config, one shared file ------------------------
 
 type c06RaceCase struct {
-	Spec  CfgSpec    `json:"options"`
-	Tests [][]Call   `json:"goroutines"`
-	Skips []string   `json:"skips"` // per goroutine: "" or the Skip* kind called after its calls
-	Pre   bool       `json:"prerecorded"`
-	Mode  Mode       `json:"mode"`
+	Spec  CfgSpec  `json:"options"`
+	Tests [][]Call `json:"goroutines"`
+	Skips []string `json:"skips"` // per goroutine: "" or the Skip* kind called after its calls
+	Pre   bool     `json:"prerecorded"`
+	Mode  Mode     `json:"mode"`
 }
 
 func genC06Race(t *rapid.T) c06RaceCase {
